@@ -38,6 +38,11 @@ add("C01", "runtime monitor: exactly-once / order / metadata checker over handle
     "Geo-broadcast/anycast reach is judged in full-mesh topologies only; receivers in the C07 tolerance band are not judged; SCF traffic is not generated (buffers are documented stubs); security-enabled variants are covered by C03/C05.",
     "DESIGN.md 3/C01")
 
+add("C06", "runtime monitor: offline history checker over (rx frame, indications, tx frames, virtual timers) keyed by (source, SN), with an exact model of the duplicate window",
+    "Exploration: (A) one real station with a real neighbour receives streams of reference-built TSB/GBC/GAC/GUC/LS packets from up to three phantom sources and from its own address, with exact duplicates and replays inside and outside the DPL window (lengths 1..16), SN wrap, received RHL 0/1/2/.../255, SIMPLE and CBF with a duplicate overheard 0.4 ms after buffering or the timer left to fire; indications and transmissions are judged per (SO,SN): at most one delivery/forward inside the window, nothing for own-address packets, nothing forwarded for RHL 0/1, forwarded copy byte-identical except RHL-1 and a DE PV refreshed only by a strictly newer neighbour PV. (B) floods of GBC/TSB/LS-request through 3-8 real stations in line/ring/mesh, SIMPLE and CBF, run to quiescence in virtual time: per station at most one transmission and delivery per packet, each transmitted RHL one below a received copy, no CBF transmission after an overheard duplicate, termination within MHL x stations rounds.",
+    "Histories stay well inside itsGnLifetimeLocTE so that the DPL is never reset by entry expiry; omitted forwards (PDR limit, size control, SCF stub) are allowed.",
+    "DESIGN.md 3/C06")
+
 NOT_YET = "check not built yet (work in progress; runtime monitor planned in DESIGN.md section 3)"
 
 def main():
